@@ -280,6 +280,7 @@ let handle (line:string) : string =
     (match op with
      | "clone" -> fin (clone (nat_of_int (List.length heap + 1)) heap a)
      | "cfr" -> fin (clone_from_root heap a)
+     | "rotate" -> fin (HOk (hrotate heap a, a))
      | _ -> "?")
   | "PROB" :: ws ->
     let (ps, ds) = split_at "|" ws in
